@@ -22,6 +22,23 @@ from fractions import Fraction as F
 from . import common as C
 from . import rhs2_lib as L
 
+CLAIM = dict(
+    claimed=False,        # part of C14: text proposed for the CLAIM of harness/c14.py
+    text="Machine-checked theorems (coq/Props/C14x.v + C14xg.v, closed under the global context). (1) Node-level ODE systems (individual-based / pair-based SIS and SIR, the "
+         "definitions of Model/Rhs2D.v that are proved equal to the definitions regenerated from EoN/analytic.py on every run): for every injective relabelling, every order of every "
+         "adjacency list and every re-ordering of nodelist (decidable hypothesis relabel_okb) the right-hand side at the re-ordered state is the re-ordered right-hand side, at every "
+         "state; the initial vectors (rho, Y0/X0, *_pure_IC sets, XY0/XX0 through the adjacency matrix) are re-ordered likewise, so the two initial-value problems are conjugate; "
+         "solutions are mapped to solutions; the discrete solutions of every explicit Runge-Kutta method (Euler, RK4, any tableau/step/number of steps) are re-ordered block by block "
+         "and all aggregated outputs (sums of X, Y, 1-X-Y) coincide. (2) All 17 modelled *_from_graph wrappers: under a graph isomorphism with any node / adjacency (hence edge) order "
+         "and the request renamed, the same error or outputs with the same series whose values are equal rationals at every time, for every solver that is a function of its input "
+         "(six wrappers: literally identical for every solver); every graph quantity read (N, N_k, class counts, edge-type counts, NkNl matrices, mean degree, PGFs, Pnk, estimate_R0, "
+         "neighbour counts) is invariant. (3) discrete_SIR with a table test and fast_nonMarkov_SIR with delay/duration tables: rows identical / per-node histories, infection and "
+         "recovery times and final statuses mapped through the relabelling, for any two iteration orders / tie policies (corollaries of the C12 / C11 characterisations).",
+    design='DESIGN.md section 4, C14; section 8.2 row C14',
+    technique='Coq proof (node forms of the right-hand sides + transport of sums along permutations; esum handshake; BFS / shortest-path transport) + extracted relabelling action '
+              'and decidable commutation statement evaluated on the Python right-hand sides and entry points',
+    note='Lift from vector fields to exact ODE flows (Picard-Lindelof) cited; scipy odeint (adaptive multistep) is covered numerically by harness/c14_ode.py.')
+
 COMP = 'c14x'
 PROPS = 'C14x'
 PROPS_GEN = 'C14xg'       # over coq/Gen/Rhs2.v, regenerated from the working tree on every run
